@@ -127,6 +127,9 @@ def r2_all_reactions(ctx):
 
 
 def r3_charge_not_skipped(ctx):
+    init = ctx.func(CHEM, "Substance.__init__")
+    ctx.check(has(init, "charge is not None and composition is not None: self.composition[0] = charge"), CHEM + ":Substance.__init__", "charge-recorded-for-any-composition",
+              "a given charge must be recorded under composition[0] for every given composition -- also the empty one (an electron: composition={}, charge=-1)", node=init)
     fn = ctx.func(CHEM, "Reaction.composition_violation")
     a = CHEM + ":Reaction.composition_violation"
     cs = [c for c in calls_in(fn) if call_name(c) == "Substance.composition_keys"]
@@ -272,7 +275,7 @@ def r7_verdicts(ctx):
 RULES = [
     Rule("C05-R1", r1_armed, 9, "balance check armed: in default_checks, run with throw=True, dominates constructor exits"),
     Rule("C05-R2", r2_all_reactions, 9, "check_balance: all reactions, all keys, no early True"),
-    Rule("C05-R3", r3_charge_not_skipped, 10, "charge not skipped; violation sum aligned"),
+    Rule("C05-R3", r3_charge_not_skipped, 11, "charge not skipped; violation sum aligned"),
     Rule("C05-R4", r4_matrix_orientation, 3, "invariant matrix orientation"),
     Rule("C05-R5", r5_single_matrix, 6, "one invariant matrix for linear_invariants and analytic solver"),
     Rule("C05-R6", r6_analytic_elimination, 5, "analytic elimination = row equation solved for the chosen column"),
@@ -307,3 +310,5 @@ TWINS = [
     Twin("violation-commuted", [(CHEM, "net[idx] += substance.composition.get(key, 0) * coeff", "net[idx] += coeff * substance.composition.get(key, 0)")]),
     Twin("extra-log-line", [(RSYS, "        for rxn in self.rxns:\n            for net, k in zip(", "        _n_checked = len(self.rxns)\n        for rxn in self.rxns:\n            for net, k in zip(")]),
 ]
+
+MUTANTS.append(Mutant("charge-dropped-for-empty-composition", [(CHEM, "            if charge is not None and composition is not None:\n                self.composition[0] = charge", "            if charge is not None and composition:\n                self.composition[0] = charge")], "C05-R3", "charge-recorded-for-any-composition"))
